@@ -344,16 +344,27 @@ def check_main(a):
     reported = []
     (VERIF / "replays").mkdir(exist_ok=True)
     n_known = 0
-    for sig, lst in sorted(viol.items()):
+    known_seen = {}
+    n_written = 0
+    t_shrink_end = REAL_TIME() + (90 if tier == "quick" else 600)
+    for sig, lst in sorted(viol.items(), key=lambda kv: (-len(kv[1]), kv[0])):
         k = match_known(known, prop, sig)
         d, v = lst[0]
         if k is not None:
-            print("KNOWN-FINDING: property=%s %s (%d occurrence(s); e.g. seed %d)" % (prop, k["what"], len(lst), d["seed"]))
-            n_known += 1
+            agg = known_seen.setdefault(k["signature"], [k, 0, d["seed"], set()])
+            agg[1] += len(lst)
+            agg[3].add(sig)
+            continue
+        reported.append(sig)
+        exit_code = 1
+        n_written += 1
+        if n_written > 6:
+            # further signatures are listed, not minimised (a broken tree can produce hundreds)
+            print("VIOLATION-ALSO property=%s signature=%r occurrences=%d seed=%d" % (prop, sig, len(lst), d["seed"]))
             continue
         doc = {"property": prop, "seed": d["seed"], "scenario": d.get("scn"), "plans": d.get("plans"),
                "violation": v, "signature": sig, "event_digest": d["full"], "occurrences": len(lst)}
-        if not a.no_shrink and d.get("scn") is not None:
+        if not a.no_shrink and d.get("scn") is not None and REAL_TIME() < t_shrink_end:
             try:
                 from cverif import shrink
 
@@ -365,9 +376,11 @@ def check_main(a):
         path.write_text(json.dumps(doc, indent=1, default=str))
         print("VIOLATION property=%s replay=%s" % (prop, path))
         print("  signature: %s   (%d occurrence(s))" % (sig, len(lst)))
-        print("  detail: %s" % json.dumps(v["detail"], default=str)[:600])
-        reported.append(sig)
-        exit_code = 1
+        print("  detail: %s" % json.dumps(doc["violation"]["detail"], default=str)[:600])
+    for ksig, (k, n, seed0, sigs) in sorted(known_seen.items()):
+        print("KNOWN-FINDING: property=%s %s (%d occurrence(s) in %d window(s); e.g. seed %d)"
+              % (prop, k["what"], n, len(sigs), seed0))
+        n_known += 1
     if herrors:
         print("HARNESS-ERROR (%d):" % len(herrors))
         for h in herrors[:5]:
